@@ -161,6 +161,7 @@ __CPROVER_requires(P1_RS->rmq.lmq_len > 0 ==> __CPROVER_is_fresh(LMQ_VIEW(&P1_RS
 /* stable state: receivers wait only when nothing is buffered or held; a message is held only when the buffer is full */
 __CPROVER_requires(g_qa.n == 0 || (P1_RS->rmq.lmq_len == 0 && !P1_RS->rd_ready))
 __CPROVER_requires(!P1_RS->rd_ready || P1_RS->rmq.lmq_len >= P1_RS->rmq.lmq_cap)
+__CPROVER_requires((P1_RS->rmq.lmq_len > 0 || P1_RS->rd_ready) ==> g_pollr)
 __CPROVER_requires(g_k < P1_RS->rmq.lmq_len ==> g_p == (void *) LMQ_VIEW(&P1_RS->rmq, g_k))
 __CPROVER_assigns(aio->a_msg, aio->a_result, aio->a_count, P1_RS->rd_ready, P1_RS->rmq.lmq_get, P1_RS->rmq.lmq_put, P1_RS->rmq.lmq_len, __CPROVER_object_whole(P1_RS->rmq.lmq_msgs), VP_PROTO_GHOST_LIST, VP_SYNC_GHOSTS)
 __CPROVER_assigns(P1_RS->rd_ready: P1_RS->p->aio_recv.a_msg)
@@ -175,8 +176,11 @@ __CPROVER_ensures((OLD(P1_RS->rmq.lmq_len) > 0 && OLD(P1_RS->rd_ready)) ==> (P1_
 __CPROVER_ensures((OLD(P1_RS->rmq.lmq_len) == 0 && OLD(P1_RS->rd_ready)) ==> (g_fin_calls == OLD(g_fin_calls) + 1 && g_fin_last == aio && g_fin_last_rv == 0 && aio->a_msg == (nni_msg *) g_p2 && P1_HELD == NULL && !P1_RS->rd_ready && g_pipe_recv_calls == OLD(g_pipe_recv_calls) + 1 && g_start_calls == OLD(g_start_calls) && !g_pollr))
 /* nothing available: started once; refused => not queued */
 __CPROVER_ensures((OLD(P1_RS->rmq.lmq_len) == 0 && !OLD(P1_RS->rd_ready)) ==> (g_start_calls == OLD(g_start_calls) + 1 && g_start_last == aio && g_fin_calls == OLD(g_fin_calls) && g_qa.n == OLD(g_qa.n) + (g_aio_start_ok ? 1 : 0) && g_pipe_recv_calls == OLD(g_pipe_recv_calls)))
-/* C15: after a successful receive the descriptor is readable iff something is still buffered */
+/* C15 (both directions): the receive descriptor mirrors "a non-blocking receive would
+ * succeed" = something is buffered or held back.  It is an invariant: assumed on
+ * entry, re-established on exit (no missed wake-up, no busy loop). */
 __CPROVER_ensures((g_fin_calls > OLD(g_fin_calls) && P1_RS->rmq.lmq_len == 0) ==> !g_pollr)
+__CPROVER_ensures((P1_RS->rmq.lmq_len > 0 || P1_RS->rd_ready) ==> g_pollr)
 ;
 /* clang-format on */
 #endif
